@@ -577,6 +577,7 @@ def generate(prop, rng, tier):
             # the old-style counters (wrappers around the same detectors), fed in chunks, loops read between the calls
             tr["compat"] = {"cuts": sorted(rng.random() for _ in range(rng.choice([0, 1, 1, 2, 3]))), "peek": rng.random() < 0.6}
     tr["refuse"] = rng.randint(1, 3) if rng.random() < 0.12 else 0
+    tr["mid_flush"] = rng.random() < 0.2
     if prop == "C01":
         tr["final_flush"] = rng.random() < 0.25
         tr["scribble"] = rng.random() < 0.3
@@ -686,6 +687,13 @@ def _execute(prop, trace):
         st["delivered"].append(sig[a:b])
         det, rec = rp["det"], rp["rec"]
         flush = final_flush and last
+        mid = False
+        if trace.get("mid_flush") and not last and 2 <= b < n and n <= 150 and (st["k"] + r) % 2 == 0 \
+                and (sig[b - 1] - sig[b - 2]) * (sig[b] - sig[b - 1]) < 0:
+            # the caller flushes at the end of a block whose last sample is a reversal anyway (flush=True declares the
+            # last sample a turning point - which it is), and goes on: nothing may change
+            flush = mid = True
+            out.count("history:mid_stream_flush_at_a_reversal")
         out.steps += 1
         nb = len(st["bounds"]) - 1
         thin = n > 150 and not last and (st["k"] % max(1, nb // 8)) != 0     # long signals: a subset of the borders plus the end
@@ -736,7 +744,8 @@ def _execute(prop, trace):
         if prop == "C01":
             check_c01(out, st, rp, r, sig[:b], o, flush)
         else:
-            check_c02_accounting(out, st, rp, r, sig[:b], o)
+            if not mid:       # right after a flush the residual shows the flushed sample and the open end (C02 judges the borders after it)
+                check_c02_accounting(out, st, rp, r, sig[:b], o)
             if last and not st["dead"] and rp["det"] in ("fp", "tp") and "ifrom" in o:
                 # the delivery schedule may not change WHICH loops are closed: the chunked replica against the definition
                 cyc, res = ref.four_point(ref.turning_points(sig))
@@ -862,6 +871,24 @@ def check_c01(out, st, rp, r, prefix, o, flush):
             out.violate("exception", det + "/chunk_local_index", {"type": type(e).__name__, "msg": str(e), "global": gi})
             st["dead"] = True
             return
+        # the same look-up with the indices stored compactly (the narrowest integer type that holds them)
+        top = max(int(g) for g in gi)
+        ndt = next((t for t in (np.uint8, np.int16, np.uint16, np.int32) if top <= np.iinfo(t).max), None)
+        if ndt is not None and min(int(g) for g in gi) >= 0:
+            try:
+                cn2, cl2 = st["d"].recorder.chunk_local_index(np.asarray([int(g) for g in gi], dtype=ndt))
+                same = [int(x) for x in np.atleast_1d(cn2)] == cn and [float(x) for x in np.atleast_1d(cl2)] == clf
+            except Exception as e:   # noqa
+                out.violate("exception", det + "/chunk_local_index", {"type": type(e).__name__, "msg": str(e), "global": gi, "dtype": np.dtype(ndt).name})
+                st["dead"] = True
+                return
+            if not same:
+                out.violate("I2-chunk-bookkeeping", "%s:%s:narrow-lookup" % (det, ik),
+                            {"replica": r, "dtype": np.dtype(ndt).name, "global": gi[:20], "chunk": [int(x) for x in np.atleast_1d(cn2)][:20],
+                             "chunk_int64": cn[:20], "chunks": lens[:40]})
+                st["dead"] = True
+                return
+            out.count("probe:lookup_with_narrow_integers")
         for g, k, j, val in zip(gi, cn, clf, o[vk]):
             ok = (0 <= k < len(lens) and j == int(j) and 0 <= int(j) < lens[k]
                   and offs[k] + int(j) == int(g) and st["delivered"][k][int(j)] == val)
@@ -1302,7 +1329,7 @@ def generate_c03(rng, tier):
             tw["a"] = 2.0 ** rng.randint(-3, 5)
             tw["b"] = float(rng.randint(-64, 64)) / rng.choice([1, 2, 8])
     elif kind == "container":
-        tw["index"] = rng.choice(["range", "shuffled", "float", "datetime", "string", "offset", "dupint"])
+        tw["index"] = rng.choice(["range", "shuffled", "float", "datetime", "string", "offset", "dupint", "datetime_unsorted", "timedelta_unsorted"])
         tw["perm_seed"] = rng.randint(0, 10 ** 6)
     tr = {"world": NAME, "signal": sig, "twin": tw}
     if rng.random() < 0.4:
@@ -1334,6 +1361,16 @@ def _series_for(sig, tw):
         idx = pd.Index([0.5 * i - 3.25 for i in range(n)])
     elif kind == "datetime":
         idx = pd.date_range("2020-01-01", periods=n, freq="s")
+    elif kind == "datetime_unsorted":
+        # a wall clock that was set back during the recording / stamps of blocks stitched together out of order
+        p = list(range(n))
+        _r.Random(tw["perm_seed"]).shuffle(p)
+        idx = pd.DatetimeIndex([pd.Timestamp("2020-01-01") + pd.Timedelta(seconds=q) for q in p]) if tw["perm_seed"] % 3 else \
+            pd.date_range("2020-01-01", periods=n, freq="s")[::-1]
+    elif kind == "timedelta_unsorted":
+        p = list(range(n))
+        _r.Random(tw["perm_seed"]).shuffle(p)
+        idx = pd.TimedeltaIndex([pd.Timedelta(milliseconds=5 * q) for q in p])
     elif kind == "string":
         idx = pd.Index(["s%03d" % ((7 * i + 3) % 1000) for i in range(n)])
     elif kind == "offset":
@@ -1569,7 +1606,7 @@ def shrink(prop, trace):
             t = copy.deepcopy(trace)
             t["order"] = []
             yield t
-        for key in ("final_flush", "scribble", "refuse", "doubling", "compat"):
+        for key in ("final_flush", "scribble", "refuse", "doubling", "compat", "mid_flush"):
             if trace.get(key):
                 t = copy.deepcopy(trace)
                 t[key] = False
